@@ -1,0 +1,16 @@
+//go:build verif
+
+// Contracts for the tvc verifier (/verif). Comment-only: with the `verif` tag off this file does not exist,
+// with it on it adds no code. Syntax: /verif/DESIGN.md appendix A.
+
+package status
+
+//@ for C15
+
+//@ # card lists never hold nil cards (assumed for every element read, proved for every element written)
+//@ invariant elem *Card: value != nil
+
+//@ # preferIndex comes from a stored record, numa from a pod annotation: any values
+//@ func NodeStatus.RequestNetworkIndex
+//@   requires n != nil
+//@   panics
